@@ -100,7 +100,7 @@ Section Generic.
         destruct (Nat.eq_dec i n) as [->|Hne]; [left; reflexivity|].
         right. assert (Hin : i < n) by lia. specialize (IH Hn' l tok i t Hin Ht Hheld).
         cbn in Hok. rewrite Hok in IH. cbn in IH. apply IH; [lia | exact Htn].
-      + rewrite upd_other by exact NE. apply Keep. rewrite upd_other by exact NE. reflexivity.
+      + apply Keep. apply upd_other. exact NE.
     - (* Take *)
       destruct (pair_dec l0 tok0 l tok) as [E|NE].
       + inversion E; subst l0 tok0. rewrite upd_same. cbn. intros j Hj Hjt.
@@ -111,7 +111,7 @@ Section Generic.
           rewrite Hst in IH. cbn in IH.
           assert (Hi_n : hb i n) by (destruct IH as [->|IH]; [exact Hx | eapply hb_trans; eassumption]).
           eapply hb_trans; [exact Hi_n |]. apply hb_same_thread with tn; [lia | exact Htn | exact Hjt].
-      + rewrite upd_other by exact NE. apply Keep. rewrite upd_other by exact NE. reflexivity.
+      + apply Keep. apply upd_other. exact NE.
   Qed.
 
   Theorem discipline_drf : drf tr.
